@@ -140,6 +140,16 @@ def _run_in_child(trace):
     return {"recs": ex.recs, "viol": viol, "reqs": reqs, "stats": stats}
 
 
+def _target(trace, v):
+    pm = prop_module(trace["prop"])
+    if hasattr(pm, "violation_target"):
+        try:
+            return pm.violation_target(trace, v) or ""
+        except Exception:  # noqa: BLE001
+            return ""
+    return ""
+
+
 def run_job(job):
     """Executed in a worker (template) process.  job = {seed, world, trace}."""
     t0 = time.monotonic()
@@ -182,7 +192,8 @@ def run_job(job):
         if v.get("explicit"):
             st = v["explicit"][-1]
         v["cls"] = [trace["prop"], v["oracle"], st.get("k"),
-                    "+".join(sorted((st.get("fault") or {}).keys())) or "none"]
+                    "+".join(sorted((st.get("fault") or {}).keys())) or "none",
+                    _target(trace, v)]
     out = {
         "seed": job.get("seed"), "world": trace["world"], "viol": viol,
         "hist": history_digest(recs), "stats": res["stats"], "nsteps": len(recs),
@@ -219,6 +230,25 @@ class Pools:
     def close(self):
         for p in self.pools.values():
             p.shutdown(wait=True, cancel_futures=True)
+
+
+def run_trace(pools, trace, keep_recs=False):
+    """Run one trace (in its world, and additionally in trace['compare_world'] for the
+    import-identity oracle); returns the result with cross-world violations appended."""
+    res = pools.run_one({"seed": trace.get("seed"), "trace": trace, "keep_recs": keep_recs})
+    other = trace.get("compare_world")
+    if other and "harness_error" not in res:
+        t2 = dict(trace, world=other)
+        t2.pop("compare_world")
+        res2 = pools.run_one({"seed": trace.get("seed"), "trace": t2})
+        if "harness_error" in res2:
+            return res2
+        pm = prop_module(trace["prop"])
+        res["job"] = {"trace": trace}
+        res2["job"] = {"trace": t2}
+        for _r, v in pm.cross_check([res2, res]):
+            res["viol"].append(v)
+    return res
 
 
 def load_known_findings():
